@@ -203,6 +203,53 @@ def named(m, name=None):
     return out if name is None else out.get(name)
 
 
+class Filtered:
+    """A view of a rule that keeps the obligations whose construct `keep(construct)` accepts and drops the others: lets a check call another check's rule
+    function for the part that concerns it (where a borrow would be circular)."""
+
+    def __init__(self, rule, keep):
+        self.rule, self.keep = rule, keep
+
+    def _fwd(self, name, construct, *a, **k):
+        if self.rule is not None and self.keep(construct):
+            return getattr(self.rule, name)(construct, *a, **k)
+        return None
+
+    def require(self, cond, construct, *a, **k):
+        if self.rule is not None and self.keep(construct):
+            return self.rule.require(cond, construct, *a, **k)
+        return None
+
+    def ok(self, construct, *a, **k):
+        return self._fwd("ok", construct, *a, **k)
+
+    def fail(self, construct, *a, **k):
+        return self._fwd("fail", construct, *a, **k)
+
+    def unknown(self, construct, *a, **k):
+        return self._fwd("unknown", construct, *a, **k)
+
+
+_RUNNING: list = []  # checks whose rules are being evaluated in this process, innermost last
+
+
+class running:
+    """Guard against circular dependencies between checks (a borrow, or a rule that evaluates another check's scenarios): re-entering a check that is
+    being evaluated is an analysis error, never a hang."""
+
+    def __init__(self, pid):
+        self.pid = pid
+
+    def __enter__(self):
+        if self.pid in _RUNNING:
+            raise AnalysisError(f"circular dependency between checks: {' -> '.join(_RUNNING + [self.pid])}")
+        _RUNNING.append(self.pid)
+
+    def __exit__(self, *exc):
+        _RUNNING.pop()
+        return False
+
+
 def borrow(chk, S, into_rule, from_pid: str, select):
     """Import the obligations of another property's check that ``select(rule_id, construct)`` accepts into ``into_rule``.
 
@@ -233,7 +280,8 @@ def borrow(chk, S, into_rule, from_pid: str, select):
         T.reset()
         _nf.reset()
         try:
-            mod.run(lender, S2)
+            with running(from_pid):
+                mod.run(lender, S2)
         except AnalysisError as e:
             lender.analysis_error(str(e))
         finally:
